@@ -68,6 +68,9 @@ def oracle(c, r):
         want_hits = info['n'] + 1 + info['n'] // 2 + 1
         if info['rc'] != 0 or info['files'] != [pfx + '.lprof', pfx + '.txt', pfx + '_<TS>.txt'] or info.get('hot_loop_hits') != want_hits:
             bad.append({'explicit profiler with output prefix %r: its own three files with its own data' % pfx: info, 'expected_hits_of_the_loop_line': want_hits})
+    rw = r.get('rewritten_file_read_back')
+    if rw is not None and rw['stale_rounds']:
+        bad.append({'a statistics file written again by the same process was read back with older data': rw})
     if r['live'] != r['live_reloaded']:
         bad.append({'load(dump(stats)) != stats': [str(r['live'])[:300], str(r['live_reloaded'])[:300]]})
     if r['live_print_stats'] != r['reloaded_show_text']:
